@@ -169,14 +169,19 @@ theorem command_replays (w : WordOracle) (np nd window : Nat) (hp : np ≤ 3) (h
   decStep_emitCommand w np nd window hp hnd mb s sr ins c0 c1 c2 c3 rest hring hc hins hroom hfit hlen hx
     hd1 hdw hd31 hmatch
 
-/-- a match found in the ring buffer is a match in the text (`RingView`: the ring invariant
-`RingBufferWrite` maintains), so the hypothesis `hmatch` of `command_replays` follows from
-`match_sound` whenever both stretches are still held by the ring -/
-theorem ring_match_is_text_match {data : ByteArray} {k : Nat} {T : Bytes} {lo hi : Nat}
-    (hv : RingView data k T lo hi) {cur d len : Nat} (hd : d ≤ cur) (hlo : lo ≤ cur - d)
-    (hhi : cur + len ≤ hi) (hag : Agree data ((cur - d) % 2 ^ k) (cur % 2 ^ k) len) :
+/-- a match found in the ring buffer is a match in the text.  The ring hypothesis is w-stream's
+`RingViewW` (BV/Props/C01.lean, proved from the `RingBufferWrite` invariant `RingOK` by `ring_view_w`)
+over `ringBytes data` = the bytes of the slice the hashers read: positions at their offset, WRAPPED
+positions with offset < `tail` mirrored behind the ring — nothing about the slack or about tail
+cells of first-lap positions.  So the hypothesis `hmatch` of `command_replays` follows from
+`match_sound` whenever both stretches are still held by the ring and the match is at most one
+tail (input block) long. -/
+theorem ring_match_is_text_match {data : ByteArray} {k tail : Nat} {T : Bytes} {lo hi : Nat}
+    (hv : BV.Props.C01.RingViewW (ringBytes data) k tail T lo hi) (htail : tail ≤ 2 ^ k)
+    {cur d len : Nat} (hd : d ≤ cur) (hlo : lo ≤ cur - d)
+    (hhi : cur + len ≤ hi) (hlen : len ≤ tail) (hag : Agree data ((cur - d) % 2 ^ k) (cur % 2 ^ k) len) :
     ∀ j, j < len → T.getD (cur - d + j) 0 = T.getD (cur + j) 0 :=
-  BV.MatchFinder.ring_match_is_text_match hv hd hlo hhi hag
+  BV.MatchFinder.ring_match_is_text_match hv htail hd hlo hhi hlen hag
 
 /-- the composition for AdvHasher: a `true` result without dictionary, found in a ring buffer that
 holds the text produced so far plus the pending bytes of the meta-block, yields a command that the
@@ -184,12 +189,13 @@ RFC decoder turns into exactly those pending bytes. -/
 theorem found_copy_replays (P : AdvP) (numLast lbs : Nat) (data : ByteArray) (k : Nat) (cache : List Int)
     (maxLength maxBackward maxDistance : Nat) (out o : SR) (st st' : AdvSt) (c c' : Common)
     (w : WordOracle) (np nd window : Nat) (hp : np ≤ 3) (hnd : nd ≤ 120)
-    (mb : Bytes) (s : DecSt) (ins : Nat) (c0 c1 c2 c3 : Int) (rest : List Int) (lo hi : Nat)
+    (mb : Bytes) (s : DecSt) (ins : Nat) (c0 c1 c2 c3 : Int) (rest : List Int) (lo hi tail : Nat)
     (hk : k ≤ 63) (hcur : s.out.length + ins < 2 ^ 64)
     (hmbw : maxBackward = min (s.out.length + ins) window)
     (hfound : Adv.findLongestMatch P numLast lbs none data (2 ^ k - 1) cache (s.out.length + ins) maxLength
       maxBackward maxDistance out st c = some (true, o, st', c'))
-    (hv : RingView data k (s.out ++ (mb.drop s.cursor).take (ins + o.len)) lo hi)
+    (hv : BV.Props.C01.RingViewW (ringBytes data) k tail (s.out ++ (mb.drop s.cursor).take (ins + o.len)) lo hi)
+    (htail : tail ≤ 2 ^ k) (hmt : maxLength ≤ tail)
     (hlo : lo ≤ s.out.length + ins - o.distance) (hhi : s.out.length + ins + o.len ≤ hi)
     (hring : s.ring = [c0, c1, c2, c3]) (hc : CacheI32 (c0 :: c1 :: c2 :: c3 :: rest))
     (hins : ins < 2 ^ 32) (hroom : s.cursor + ins < mb.length) (hfit : s.cursor + ins + o.len ≤ mb.length)
@@ -203,11 +209,11 @@ theorem found_copy_replays (P : AdvP) (numLast lbs : Nat) (data : ByteArray) (k 
     omega
   have hs := match_sound_adv P numLast lbs none data (2 ^ k - 1) hmask cache (s.out.length + ins)
     maxLength maxBackward maxDistance out o st st' c c' hcur (by rw [hmbw]; exact Nat.min_le_left _ _) hfound
-  obtain ⟨h1, h2, _, _, h4⟩ := match_without_dictionary_in_window hs
+  obtain ⟨h1, h2, h3, _, h4⟩ := match_without_dictionary_in_window hs
   rcases hs with ⟨_, _, _, hx, _, _⟩ | ⟨_, hi', _⟩
   · rw [and_ringmask, and_ringmask] at h4
     have hdle : o.distance ≤ s.out.length + ins := by rw [hmbw] at h2; exact Nat.le_trans h2 (Nat.min_le_left _ _)
-    have hm := BV.MatchFinder.ring_match_is_text_match hv hdle hlo hhi h4
+    have hm := BV.MatchFinder.ring_match_is_text_match hv htail hdle hlo hhi (by omega) h4
     exact command_replays w np nd window hp hnd mb s o ins c0 c1 c2 c3 rest hring hc hins hroom hfit hlen hx
       h1 (by rw [← hmbw]; exact h2) hd31 (fun j hj => (hm j hj).symm)
   · cases hi'
